@@ -290,3 +290,11 @@ M("C19", "walker-phasing", CONS, "            + self.spacing * (self.raan(i_plan
 M("C19", "walker-star-spacing", CONS, "        return np.pi / self.planes * i_plane + self.raan0", "        return 2 * np.pi / self.planes * i_plane + self.raan0", "R19.2")
 M("C19", "beta-cos", BETAU, "    return np.arcsin(w @ ref_pos / (np.linalg.norm(w) * np.linalg.norm(ref_pos)))", "    return np.arccos(w @ ref_pos / (np.linalg.norm(w) * np.linalg.norm(ref_pos)))", "R19.3")
 M("C19", "bplane-R", INTER, "    R = np.cross(S, T)\n\n    B_norm", "    R = np.cross(T, S)\n\n    B_norm", "R19.3")
+
+HELPER = "beyond/utils/cwhelper.py"
+M("C16", "helper-hohmann-dv", HELPER, "        dv = (self._mat3 @ [0, 1, 0]) * radial * self.n / 4", "        dv = (self._mat3 @ [0, 1, 0]) * radial * self.n / 2", "R16.4")
+M("C16", "helper-hohmann-distance", HELPER, "        res = radial * 3 * np.pi / 4", "        res = radial * 3 * np.pi / 2", "R16.4")
+M("C16", "helper-tangential", HELPER, "tangential * self.n / (6 * np.pi)", "tangential * self.n / (3 * np.pi)", "R16.4")
+M("C16", "helper-vbar-accel", HELPER, "        accel = (self._mat3 @ [-1, 0, 0]) * 2 * self.n * dv", "        accel = (self._mat3 @ [-1, 0, 0]) * self.n * dv", "R16.4")
+M("C16", "helper-eccentric-axis", HELPER, "        dv = (self._mat3 @ [-1, 0, 0]) * tangential * self.n / 4", "        dv = (self._mat3 @ [1, 0, 0]) * tangential * self.n / 4", "R16.4")
+M("C16", "helper-coelliptic", HELPER, "        return 1.5 * self.n * radial", "        return 2 * self.n * radial", "R16.4")
